@@ -181,6 +181,26 @@ func (e *env) runECS(paths []*pathDef, firstIdx, histories, workers int) (err er
 		sh := shape{Cell: idx, T: t, Mix: pick(rng, []string{"an", "mix", "a1x"}), Kind: pick(rng, kinds)}
 		opts := pick(rng, plain)
 
+		// What the upstream puts into the OPT of its answers (see ownOPT), and
+		// whether the first client is one that asks for padding / keep-alive
+		// over a transport that grants them.  The later clients never ask.
+		sh.OwnOPT = pick(rng, []int{0, 0, 3, 3, 3, 4, 4, 5})
+		asking := ""
+		var askPath *pathDef
+		if rng.IntN(3) == 0 {
+			k := rng.IntN(4)
+			asking = []string{"pad+ka", "ka", "pad", "pad16"}[k]
+			askPath = []*pathDef{paths[3], paths[2], paths[5], paths[4]}[k]
+			if optSet(opts).DO {
+				// The DO bit is part of the cache key.
+				asking, askPath = "do+pad+ka", paths[3]
+			}
+			// The reflected options of the later clients (NSID, cookie) stay
+			// theirs; the first client has none of them.
+			p1, adv1 = askPath, 1232
+		}
+		tainted := sh.OwnOPT == 4 || sh.OwnOPT == 5 || (sh.OwnOPT == 3 && asking != "")
+
 		var h history
 		for step := 0; step < 3; step++ {
 			p, adv := p1, adv1
@@ -196,11 +216,17 @@ func (e *env) runECS(paths []*pathDef, firstIdx, histories, workers int) (err er
 				// Another cache key (no DO without OPT); still a legal history.
 				f = withAdv(optSet("none"), adv)
 			}
+			if step == 0 && asking != "" {
+				f = withAdv(optSet(asking), adv)
+			}
 
 			c, cErr := ecsCell(idx, uint16(idx*7+11+step*13), p, "ecs-cache", f, sh, step)
 			if cErr != nil {
 				return cErr
 			}
+			c.note["upstream_opt_variant"] = sh.OwnOPT
+			c.note["first_client_asked_for"] = asking
+			c.upstreamOPTTainted = tainted
 			h = append(h, c)
 		}
 		all = append(all, h)
